@@ -74,22 +74,23 @@ Qed.
 (* ================================================================== (i) validation *)
 
 Lemma field_errors_nil_iff fs name :
-  fields_uniq fs -> (field_errors fs name = [] <-> code_valid_field fs name).
+  fields_uniq fs -> (field_errors fs name = [] <-> spec_valid_field fs name).
 Proof.
-  intros Hu. unfold field_errors, code_valid_field, find_field.
+  intros Hu. unfold field_errors, spec_valid_field, find_field.
   destruct (find _ fs) as [f|] eqn:E.
   - pose proof (find_by_name_sound rf_name name fs f E) as [Hin Hn]. split.
-    + intros H. exists f. destruct (rf_string f), (rf_required f), (rf_uuid4 f); cbn in H; try discriminate. auto.
-    + intros (g & Hg & Hgn & Hs & Hr & Hu4).
+    + intros H. exists f. destruct (rf_string f), (rf_repeated f), (rf_required f), (rf_uuid4 f); cbn in H; try discriminate.
+      repeat split; auto.
+    + intros (g & Hg & Hgn & Hs & Hrep & Hr & Hu4).
       assert (g = f) by (apply (uniq_by_name rf_name fs); auto; congruence). subst g.
-      rewrite Hs, Hr, Hu4. reflexivity.
+      rewrite Hs, Hrep, Hr, Hu4. reflexivity.
   - split; [discriminate|]. intros (g & Hg & Hgn & _).
     exfalso. exact (proj1 (find_by_name_none rf_name name fs) E g Hg Hgn).
 Qed.
 
 Lemma check_one_ok_iff methods seen s :
   methods_wf methods ->
-  (check_one methods seen s = StepOk <-> ~ In (s_selector s) seen /\ valid_setting code_valid_field methods s).
+  (check_one methods seen s = StepOk <-> ~ In (s_selector s) seen /\ valid_setting spec_valid_field methods s).
 Proof.
   intros (Hnd & Hfu). unfold check_one, valid_setting, find_method.
   destruct (mem_str (s_selector s) seen) eqn:Em.
@@ -158,7 +159,7 @@ Qed.
 Lemma all_ok_iff methods : methods_wf methods -> forall settings seen,
   all_ok methods seen settings <->
   (NoDup (map s_selector settings) /\ (forall s, In s settings -> ~ In (s_selector s) seen) /\
-   Forall (valid_setting code_valid_field methods) settings).
+   Forall (valid_setting spec_valid_field methods) settings).
 Proof.
   intros Hwf. induction settings as [|s rest IH]; intros seen; cbn [all_ok map].
   - split; [intros _; repeat split; [constructor|intros s H; inversion H|constructor]|auto].
@@ -176,13 +177,13 @@ Proof.
         -- apply (Hseen s'); [now right|exact Hc].
 Qed.
 
-(* the code accepts exactly the settings lists without duplicate selectors whose every entry names an existing
-   method and, when it lists fields, a unary one with listed fields that are top-level, string-typed, not REQUIRED
-   and annotated UUID4 *)
-Lemma validation_iff_code methods settings :
-  methods_wf methods -> (enforce methods settings = Accepted <-> code_valid methods settings).
+(* the property's sentence, for all method tables and settings lists: accepted exactly when there is no duplicate
+   selector and every entry names an existing method and, when it lists fields, a unary one whose listed fields are
+   top-level, singular strings, not REQUIRED and annotated UUID4 *)
+Lemma validation_iff_spec methods settings :
+  methods_wf methods -> (enforce methods settings = Accepted <-> spec_valid methods settings).
 Proof.
-  intros Hwf. unfold enforce, code_valid, valid_settings.
+  intros Hwf. unfold enforce, spec_valid, valid_settings.
   assert (H : enforce_aux methods [] [] settings = Some [] <-> all_ok methods [] settings).
   { rewrite aux_nil_iff. tauto. }
   rewrite (all_ok_iff methods Hwf settings []) in H.
@@ -190,36 +191,6 @@ Proof.
   - split; [|reflexivity]. intros _. destruct (proj1 H eq_refl) as (Hnd & _ & Hall). auto.
   - split; [discriminate|]. intros (Hnd & Hall). assert (Some (e :: es) = Some []) by (apply H; repeat split; auto). discriminate.
   - split; [discriminate|]. intros (Hnd & Hall). assert (@None (list (string * serr)) = Some []) by (apply H; repeat split; auto). discriminate.
-Qed.
-
-Lemma valid_setting_mono (vf1 vf2 : list rfield -> string -> Prop) methods s :
-  (forall m fs name, In m methods -> m_input m = Some fs -> vf1 fs name -> vf2 fs name) ->
-  valid_setting vf1 methods s -> valid_setting vf2 methods s.
-Proof.
-  intros Hext (m & Hin & Hsel & H). exists m. split; [exact Hin|]. split; [exact Hsel|].
-  intros Hne. destruct (H Hne) as (Hc & Hss & fs & Hfs & Hall).
-  split; [exact Hc|]. split; [exact Hss|]. exists fs. split; [exact Hfs|].
-  eapply Forall_impl; [|exact Hall]. intros a Ha. exact (Hext m fs a Hin Hfs Ha).
-Qed.
-
-Lemma valid_settings_ext (vf1 vf2 : list rfield -> string -> Prop) methods settings :
-  (forall m fs name, In m methods -> m_input m = Some fs -> (vf1 fs name <-> vf2 fs name)) ->
-  (valid_settings vf1 methods settings <-> valid_settings vf2 methods settings).
-Proof.
-  intros Hext. unfold valid_settings. split; intros (Hnd & Hall); (split; [exact Hnd|]);
-    (eapply Forall_impl; [|exact Hall]); intros s Hs; (eapply valid_setting_mono; [|exact Hs]);
-    intros m fs name Hin Hfs Hv; now apply (Hext m fs name Hin Hfs).
-Qed.
-
-(* when no UUID4-annotated string field is repeated, the code decides the property's sentence *)
-Lemma validation_iff_spec methods settings :
-  methods_wf methods -> no_repeated_uuid_strings methods ->
-  (enforce methods settings = Accepted <-> spec_valid methods settings).
-Proof.
-  intros Hwf Hnr. rewrite (validation_iff_code methods settings Hwf). unfold code_valid, spec_valid.
-  apply valid_settings_ext. intros m fs name Hin Hfs. unfold code_valid_field, spec_valid_field. split.
-  - intros (f & Hf & Hn & Hs & Hr & Hu). exists f. repeat split; auto. exact (Hnr m fs f Hin Hfs Hf Hs Hu).
-  - intros (f & Hf & Hn & Hs & _ & Hr & Hu). exists f. repeat split; auto.
 Qed.
 
 (* ---- rejections ---- *)
@@ -342,7 +313,7 @@ Proof.
     apply String.eqb_eq in E2. split; [now left|assumption].
 Qed.
 
-Lemma emit_fields_defined fs : forall names, Forall (code_valid_field fs) names -> exists bs, emit_fields fs names = Some bs.
+Lemma emit_fields_defined fs : forall names, Forall (spec_valid_field fs) names -> exists bs, emit_fields fs names = Some bs.
 Proof.
   induction names as [|n names IH]; intros H; [now exists []|].
   inversion H as [|x l Hn Hrest]; subst. destruct (IH Hrest) as (bs & Hbs).
@@ -358,7 +329,7 @@ Lemma accepted_blocks_defined (b : bool) methods settings m :
   methods_wf methods -> enforce methods settings = Accepted -> In m methods ->
   exists bs, client_blocks b m settings = Some bs.
 Proof.
-  intros Hwf Hacc Hin. apply (validation_iff_code methods settings Hwf) in Hacc. destruct Hacc as (_ & Hall).
+  intros Hwf Hacc Hin. apply (validation_iff_spec methods settings Hwf) in Hacc. destruct Hacc as (_ & Hall).
   unfold client_blocks. destruct (setting_for (m_selector m) settings) as [s|] eqn:E; [|now exists []].
   apply setting_for_sound in E. destruct E as [Hs Hsel].
   rewrite Forall_forall in Hall. destruct (Hall s Hs) as (m' & Hin' & Hsel' & H).
@@ -522,8 +493,8 @@ Example ex_violations :
   enforce ex_methods [mkSetting "pkg.Lib.CreateBook" ["name"]; mkSetting "pkg.Lib.GetBook" []; mkSetting "pkg.Lib.CreateBook" []]
     = Rejected [("pkg.Lib.CreateBook", SDuplicate)].
 Proof.
-  assert (Hbad : forall n, In n ["name"; "count"; "note"; "book.request_id"] -> ~ code_valid_field ex_fields n).
-  { intros n Hn (f & Hin & Hname & Hs & Hr & Hu). cbn in Hin.
+  assert (Hbad : forall n, In n ["name"; "count"; "note"; "book.request_id"] -> ~ spec_valid_field ex_fields n).
+  { intros n Hn (f & Hin & Hname & Hs & Hrep & Hr & Hu). cbn in Hin.
     destruct Hin as [<-|[<-|[<-|[<-|[<-|[<-|[]]]]]]]; cbn in *;
       repeat (destruct Hn as [<-|Hn]; try discriminate); try contradiction. }
   repeat split.
@@ -537,27 +508,6 @@ Proof.
     exists ex_fields, "note". split; [reflexivity|]. split; [now left|]. apply Hbad. cbn. auto.
   - right. eexists. split; [left; reflexivity|]. split; [reflexivity|]. split; [discriminate|]. right. right.
     exists ex_fields, "book.request_id". split; [reflexivity|]. split; [now left|]. apply Hbad. cbn. auto.
-Qed.
-
-Definition ex_methods_singular : list mdesc :=
-  [mkMethod "pkg.Lib.CreateBook" false false (Some [f_name; f_req_id; f_opt_id; f_count; f_plain]);
-   mkMethod "pkg.Lib.GetBook" false false (Some [f_name])].
-
-(* non-vacuity of validation_iff_spec: a table without repeated UUID4 strings, an accepted list, a rejected list *)
-Example ex_singular :
-  methods_wf ex_methods_singular /\ no_repeated_uuid_strings ex_methods_singular /\
-  enforce ex_methods_singular ex_settings = Accepted /\
-  enforce ex_methods_singular [mkSetting "pkg.Lib.CreateBook" ["note"]] = Rejected [("pkg.Lib.CreateBook", SFields [("note", FNotUuid4)])].
-Proof.
-  split; [|split; [|split; reflexivity]].
-  - split.
-    + cbn. repeat constructor; cbn; intuition discriminate.
-    + intros m fs Hin Hfs. cbn in Hin.
-      destruct Hin as [<-|[<-|[]]]; cbn in Hfs; inversion Hfs; subst; unfold fields_uniq; cbn;
-        repeat constructor; cbn; intuition discriminate.
-  - intros m fs f Hin Hfs Hf _ _. cbn in Hin.
-    destruct Hin as [<-|[<-|[]]]; cbn in Hfs; inversion Hfs; subst; cbn in Hf;
-      repeat (destruct Hf as [<-|Hf]; [reflexivity|]); inversion Hf.
 Qed.
 
 Example ex_population_hyps :
@@ -580,35 +530,27 @@ Example ex_population :
   exec fs bs ["u1"; "u2"] [("request_id", VStr "mine"); ("opt_id", VStr "too")] = Some ([("request_id", VStr "mine"); ("opt_id", VStr "too")], ["u1"; "u2"]).
 Proof. repeat split. Qed.
 
-(* the gap between the code and the sentence: a REPEATED string field annotated UUID4 passes validation
-   (the sentence asks for "a string"), and at call time receives the characters of the uuid, one element each *)
+(* the former gap (a REPEATED string field annotated UUID4 used to pass validation and receive the characters of the
+   uuid), closed by /repo commit 0fe08e8: the former witness is rejected *)
 Definition rep_methods : list mdesc := [mkMethod "pkg.Lib.CreateBook" false false (Some [f_name; f_rep])].
 Definition rep_settings : list setting := [mkSetting "pkg.Lib.CreateBook" ["request_ids"]].
+Example former_gap_closed :
+  enforce rep_methods rep_settings = Rejected [("pkg.Lib.CreateBook", SFields [("request_ids", FNotString)])].
+Proof. reflexivity. Qed.
 
-Lemma validation_spec_refuted_repeated_string :
-  exists methods settings, methods_wf methods /\ enforce methods settings = Accepted /\ ~ spec_valid methods settings.
+(* every field of an accepted entry is singular: the population lemma's hypothesis is met after acceptance *)
+Lemma accepted_fields_singular methods settings s m fs n f :
+  methods_wf methods -> enforce methods settings = Accepted -> In s settings -> In m methods ->
+  m_selector m = s_selector s -> m_input m = Some fs -> In n (s_fields s) -> find_field n fs = Some f ->
+  rf_repeated f = false /\ rf_string f = true /\ rf_required f = false /\ rf_uuid4 f = true.
 Proof.
-  exists rep_methods, rep_settings. split; [|split].
-  - split.
-    + cbn. repeat constructor; cbn; intuition discriminate.
-    + intros m fs Hin Hfs. cbn in Hin. destruct Hin as [<-|[]]. cbn in Hfs. inversion Hfs; subst.
-      unfold fields_uniq. cbn. repeat constructor; cbn; intuition discriminate.
-  - reflexivity.
-  - intros (_ & Hall). inversion Hall as [|s l Hv _]; subst. destruct Hv as (m & Hin & _ & H).
-    cbn in Hin. destruct Hin as [<-|[]]. cbn in H.
-    destruct H as (_ & _ & fs & Hfs & Hf); [discriminate|]. inversion Hfs; subst fs.
-    inversion Hf as [|n l (f & Hfin & Hname & _ & Hrep & _) _]; subst.
-    cbn in Hfin. destruct Hfin as [<-|[<-|[]]]; cbn in *; discriminate.
-Qed.
-
-Lemma populate_refuted_repeated_string :
-  exists fs names bs u st st' f,
-    emit_fields fs names = Some bs /\ find_field "request_ids" fs = Some f /\ left_unset_or_empty f st = true /\
-    exec fs bs [u] st = Some (st', []) /\
-    assoc "request_ids" st' = Some (VList (chars u)) /\ assoc "request_ids" st' <> Some (VStr u).
-Proof.
-  exists [f_name; f_rep], ["request_ids"], [mkBlock (GNotTruthy "request_ids") "request_ids"],
-         "9f0c1b1e-5f0a-4b7e-8a53-0c1d2e3f4a5b", [("name", VStr "n")],
-         [("name", VStr "n"); ("request_ids", VList (chars "9f0c1b1e-5f0a-4b7e-8a53-0c1d2e3f4a5b"))], f_rep.
-  repeat split. discriminate.
+  intros Hwf Hacc Hs Hm Hsel Hfs Hn Hf. pose proof Hwf as (Hnd & Hfu).
+  apply (validation_iff_spec methods settings Hwf) in Hacc. destruct Hacc as (_ & Hall).
+  rewrite Forall_forall in Hall. destruct (Hall s Hs) as (m' & Hin' & Hsel' & H).
+  assert (m' = m) by (apply (uniq_by_name m_selector methods); auto; congruence). subst m'.
+  destruct H as (_ & _ & fs' & Hfs' & Hvalid); [intros Hc; rewrite Hc in Hn; inversion Hn|].
+  rewrite Hfs in Hfs'. inversion Hfs'; subst fs'.
+  rewrite Forall_forall in Hvalid. destruct (Hvalid n Hn) as (g & Hg & Hgn & Hs1 & Hrep & Hr & Hu).
+  pose proof (find_by_name_sound rf_name n fs f Hf) as [Hfin Hfn].
+  assert (g = f) by (apply (uniq_by_name rf_name fs); [exact (Hfu m fs Hm Hfs)|exact Hg|exact Hfin|congruence]). subst g. auto.
 Qed.
